@@ -190,6 +190,47 @@ theorem reload_import_failure_keeps {ord : Ord} (ho : OrdOk ord) {cbs : Cbs} (g 
     simp only [hno, Bool.false_eq_true, if_false, hbad, isEmpty_cons, hcond, if_true, readd, hr]
   refine ⟨by rw [heq], by rw [heq]; exact hrp.trans hperm, (reload_good ho g name avail f).1⟩
 
+/-! ### several networks -/
+
+theorem execOn_ref (ord : Ord) (w : World) (i : Nat) (c : Cmd) : (execOn ord w i c).2.ref = w.ref := rfl
+
+theorem runOn_ref (w : World) (h : List (Ord × Nat × Cmd)) : (runOn w h).ref = w.ref := by
+  induction h generalizing w with
+  | nil => rfl
+  | cons x xs ih => obtain ⟨ord, i, c⟩ := x; exact (ih _).trans (execOn_ref ord w i c)
+
+/-- **shared_view.**  All `Irc` objects start out referring to the same list object; after any
+history of `load` / `unload` / `reload` commands arriving on any of the networks they still all see
+the same registration list (no command rebinds `self.callbacks`). -/
+theorem shared_view (w : World) (hs : ∀ i j, w.ref.getD i 0 = w.ref.getD j 0)
+    (h : List (Ord × Nat × Cmd)) (i j : Nat) : (runOn w h).view i = (runOn w h).view j := by
+  unfold World.view
+  rw [runOn_ref, hs i j]
+
+/-- … and what they all see is the single-list history of the model above, whichever network each
+command arrived on: `history_inv` applies to every network's view. -/
+theorem shared_history (w : World) (hs : ∀ i j, w.ref.getD i 0 = w.ref.getD j 0)
+    (hr : w.ref.getD 0 0 < w.heap.length) (h : List (Ord × Nat × Cmd)) (i : Nat) :
+    (runOn w h).view i = runCmds (w.view i) (h.map fun x => (x.1, x.2.2)) := by
+  induction h generalizing w with
+  | nil => rfl
+  | cons x xs ih =>
+    obtain ⟨ord, k, c⟩ := x
+    have hs' : ∀ a b, (execOn ord w k c).2.ref.getD a 0 = (execOn ord w k c).2.ref.getD b 0 := hs
+    have hr' : (execOn ord w k c).2.ref.getD 0 0 < (execOn ord w k c).2.heap.length := by
+      show w.ref.getD 0 0 < (w.heap.set _ _).length
+      rw [length_set]; exact hr
+    show (runOn (execOn ord w k c).2 xs).view i = runCmds (exec ord (w.view i) c).2 _
+    rw [ih _ hs' hr']
+    congr 1
+    unfold World.view execOn
+    simp only
+    rw [hs i k]
+    have hk : w.ref.getD k 0 < w.heap.length := by rw [hs k 0]; exact hr
+    generalize w.ref.getD k 0 = r at hk
+    rw [List.getD_eq_getElem?_getD, List.getElem?_set_self hk]
+    rfl
+
 /-! ### commands -/
 
 /-- **commands_union.**  The commands the dispatcher can route are exactly those of the registered
